@@ -103,7 +103,7 @@ def main():
         keep = [r for r in json.load(open(evp)) if r.get("mutant") not in {x.get("mutant") for x in results}]
         results = keep + results
     if a.benign:
-        sys.exit(0 if all(r["silent"] for r in results) else 1)
+        sys.exit(0 if all(r.get("silent", True) for r in results) else 1)
     json.dump(results, open(os.path.join(VERIF, "evidence", a.prop + ".mutants.json"), "w"), indent=1)
     sys.exit(0 if results and all(r["caught"] for r in results) else 1)
 
